@@ -152,6 +152,7 @@ def corpus(ctx):
         for res_, n_ in pairs:
             notes_ = "".join(f"  {k} = N {k % 5} 0\n" for k in range(0, 6000, 16))
             cases.append((f"[Song]\n{{\n  Resolution = {res_}\n}}\n[SyncTrack]\n{{\n  0 = TS 4\n  0 = B {n_}\n}}\n[Events]\n{{\n}}\n[ExpertSingle]\n{{\n{notes_}}}\n", None))
+            pad()  # each in a reference interpreter of its own: the reference parse of one never follows the other
     # > 128 distinct sustain tuples in one chart, and > 128 distinct resolutions over tiny charts
     groups = [gen.NoteGroup(10 * k, {0: k + 1, 1: 2 * k + 3}) for k in range(160)]
     src = gen.ChartSrc(192, {"resolution": 192}, [(0, 120000)], [(0, 4, None)], [], [], [gen.TrackSrc(0, 3, groups, [], [])])
